@@ -52,7 +52,8 @@ class State(tuple):
 
 
 class LockClient(pathflow.Client):
-    def __init__(self, func, self_name=None, param_containers=(), store_rules=None):
+    def __init__(self, func, self_name=None, param_containers=(), store_rules=None, lease_rule=False):
+        self.lease_rule = lease_rule
         self.func = func
         self.self_name = self_name or func.name
         self.violations = []       # (rule, message, line)
@@ -88,7 +89,7 @@ class LockClient(pathflow.Client):
         for h in st.held:
             if base_var(h) == name and '->' in h:
                 self.viol('R1-base-reassigned', 'variable `%s` reassigned while %s is write-held' % (name, h), n)
-        facts = frozenset(f for f in st.facts if not (f[0] in ('null', 'nonnull') and f[1] == name))
+        facts = frozenset(f for f in st.facts if not (f[0] in ('null', 'nonnull', 'unverified') and f[1] == name))
         env = frozenset(e for e in st.env if e[0] != name)
         val = None
         if init is not None:
@@ -117,6 +118,8 @@ class LockClient(pathflow.Client):
                     val = ('cont', i['name'])
             elif i['k'] == 'MemberExpr' and expr_key(i) in ('root',):
                 val = ('saved', 'root')
+            elif i['k'] == 'MemberExpr' and i.get('member') == 'parent' and i.get('arrow'):
+                val = ('from', expr_key(i))
             elif i['k'] == 'UnaryOperator' and i.get('op') == '*' and False:
                 pass
             if val is None and i['k'] in ('CXXNewExpr',):
@@ -156,6 +159,12 @@ class LockClient(pathflow.Client):
         if k == 'BinaryOperator' and n['op'] == '=':
             lhs = self._local(kids(n)[0])
             if lhs is not None:
+                if self.lease_rule and lhs['name'] == 'cur' and ('dirty', 'cur') in st.facts:
+                    self.viol('R2-result-from-unvalidated-read', 'descent to a child chosen from node data read under a lease that was not '
+                              'validated (end_read) on this path', n)
+                    st = st.rep(facts=frozenset(f for f in st.facts if f[0] != 'dirty'))
+                elif lhs['name'] == 'cur':
+                    st = st.rep(facts=frozenset(f for f in st.facts if f[0] != 'dirty'))
                 return [self._assign_var(st, lhs['name'], lhs['did'], kids(n)[1], n)]
             self._store(st, kids(n)[0], n)
             return [st]
@@ -178,7 +187,21 @@ class LockClient(pathflow.Client):
             return [st]
         cn, key = self._lock_call(n)
         if cn is not None:
+            if cn in ('validate', 'end_read'):
+                # the success outcome certifies everything read under the lease so far
+                facts = frozenset(f for f in st.facts if not (f[0] == 'res' and f[1] == n['id']))
+                ok = st.rep(facts=frozenset(f for f in facts if f[0] != 'dirty') | {('res', n['id'], True)})
+                no = st.rep(facts=facts | {('res', n['id'], False)})
+                self.events.setdefault('validate', set()).add((key, n.get('l')))
+                return [ok, no]
             return self._lock_event(st, cn, key, n)
+        if k == 'MemberExpr' and self.lease_rule and n.get('arrow') and n.get('member') in ('keys', 'numElements', 'inner', 'children') and kids(n):
+            b = strip(kids(n)[0], casts=True)
+            if b['k'] == 'DeclRefExpr' and b.get('dk') == 'Local':
+                lk = b['name'] + '->lock'
+                if lk not in st.held and lk not in st.ext and b['name'] == 'cur':
+                    return [st.rep(facts=st.facts | {('dirty', b['name'])})]
+            return [st]
         if k == 'CXXMemberCallExpr' and n.get('cn') in ('push_back', 'emplace_back'):
             c = self._container_of(st, call_obj(n)) if call_obj(n) is not None else None
             if c is not None:
@@ -187,6 +210,11 @@ class LockClient(pathflow.Client):
         if k == 'CXXMemberCallExpr' and n.get('cn') in NODE_METHODS:
             self._precondition(st, n)
             return [st]
+        if k == 'ReturnStmt' and self.lease_rule:
+            restart = any(is_call(m) and m.get('cn') == self.self_name for m in walk(n))
+            if not restart and any(f[0] == 'dirty' for f in st.facts):
+                self.viol('R2-result-from-unvalidated-read', 'a result is returned from node data read under a read lease that was never validated '
+                          'on this path (a concurrent writer may have been half-way through moving keys)', n)
         if k == 'ReturnStmt':
             for m in walk(n):
                 if is_call(m) and m.get('cn') == self.self_name and m.get('cdid') is not None and m.get('cc') == func.d.get('cls'):
@@ -221,7 +249,12 @@ class LockClient(pathflow.Client):
             self.events['acquire'].add((key, n.get('l')))
             if key in st.held:
                 self.viol('R1-double-acquire', '%s.start_write() while already write-held on this path (self-deadlock)' % key, n)
-            return [st.rep(held=st.held | {key})]
+            b = base_var(key)
+            v = fs_get(st.env, b)
+            facts = st.facts
+            if v and v[0] == 'from' and '->' in key:
+                facts = facts | {('unverified', b)}      # the pointer may have changed while we waited for the lock
+            return [st.rep(held=st.held | {key}, facts=facts)]
         if cn in TRY or cn == 'is_write_locked':
             if cn in TRY:
                 self.events['try'].add((key, n.get('l')))
@@ -231,7 +264,7 @@ class LockClient(pathflow.Client):
             ok = st.rep(facts=facts | {('res', n['id'], True)})
             no = st.rep(facts=facts | {('res', n['id'], False)})
             if cn in TRY:
-                ok = ok.rep(held=ok.held | {key})
+                ok = ok.rep(held=ok.held | {key}, facts=frozenset(f for f in ok.facts if f[0] != 'dirty'))
             else:
                 ok = ok.rep(ext=ok.ext | {key}) if key not in ok.held else ok
             return [ok, no]
@@ -266,6 +299,11 @@ class LockClient(pathflow.Client):
     def _transfer(self, st, c, arg, n):
         a = self._local(arg)
         self.events['transfer'].add(n.get('l'))
+        if a is not None and ('unverified', a['name']) in st.facts:
+            v = fs_get(st.env, a['name'])
+            self.viol('R5-locked-pointer-rechecked', '`%s` was read from %s without protection, then locked; it is recorded as the locked parent '
+                      'without re-checking that %s still equals it (the node may have been split while waiting for its lock)' % (
+                          a['name'], v[1] if v else '?', v[1] if v else 'the source'), n)
         if a is None:
             x = strip(arg, casts=True)
             if x['k'] == 'CXXNullPtrLiteralExpr' and 'root_lock' in st.held:
@@ -319,7 +357,7 @@ class LockClient(pathflow.Client):
         want = truth != neg
         if c['k'] == 'CXXBoolLiteralExpr':
             return st if bool(c['val']) == want else None
-        if is_call(c) and c.get('cc') == LOCK_CLS and c.get('cn') in TRY + ('is_write_locked',):
+        if is_call(c) and c.get('cc') == LOCK_CLS and c.get('cn') in TRY + ('is_write_locked', 'validate', 'end_read'):
             r = [f for f in st.facts if f[0] == 'res' and f[1] == c['id']]
             if r:
                 return st if r[0][2] == want else None
@@ -344,8 +382,15 @@ class LockClient(pathflow.Client):
                     if lx is not None:
                         isnull = (c['op'] == '==') == want
                         return self._ptr_fact(st, lx['name'], 'null' if isnull else 'nonnull')
-            # saved root compared with the current root
             ka, kb = expr_key(a), expr_key(b)
+            for x, other in ((sa, kb), (sb, ka)):
+                lx = self._local(x)
+                if lx is not None and ('unverified', lx['name']) in st.facts:
+                    v = fs_get(st.env, lx['name'])
+                    # re-check against the link it was read from (the holder may be known under an alias: priv = parent)
+                    if v and v[0] == 'from' and other.endswith('->parent') and ((c['op'] == '==') == want):
+                        return st.rep(facts=st.facts - {('unverified', lx['name'])})
+            # saved root compared with the current root
             for x, y in ((sa, kb), (sb, ka)):
                 lx = self._local(x)
                 if lx is not None and fs_get(st.env, lx['name']) == ('saved', 'root') and y == 'root':
